@@ -88,11 +88,12 @@ def layout_sig(h):
 class Built(object):
     """An index built from a history together with its model."""
 
-    def __init__(self, ix, live, order, tmpdir=None):
+    def __init__(self, ix, live, order, tmpdir=None, alldocs=None):
         self.ix = ix
         self.live = live          # key -> model doc (live documents)
         self.order = order        # keys in insertion order (all, incl. deleted)
         self.tmpdir = tmpdir
+        self.alldocs = alldocs or dict(live)  # key -> model doc for every document physically in the index
 
     def close(self):
         import shutil
@@ -116,12 +117,13 @@ def build(history, schema=None, **schema_kw):
     else:
         st = RamStorage()
     ix = st.create_index(schema)
-    live, order = {}, []
+    live, order, alldocs = {}, [], {}
     for commit in history["commits"]:
         w = ix.writer(codec=W3Codec(blocklimit=history.get("blocklimit", 128)))
         for d in commit:
             w.add_document(**d)
             live[d["id"]] = d
+            alldocs[d["id"]] = d
             order.append(d["id"])
         w.commit(merge=False)
     if history["deletes"]:
@@ -130,7 +132,7 @@ def build(history, schema=None, **schema_kw):
             w.delete_by_term("id", key)
             live.pop(key, None)
         w.commit(merge=False)
-    return Built(ix, live, order, tmpdir)
+    return Built(ix, live, order, tmpdir, alldocs)
 
 
 _analysis_checked = False
